@@ -27,6 +27,29 @@ func (c *Ctx) Owner(s *Stmt) string {
 	return c.Key(c.effectiveTop(top(s.Fn), 0))
 }
 
+// ownedBy: every operation the statement's code runs in is one of the allowed ones. A statement built in a private
+// helper shared by several operations (a method of a small state struct used by both seek actions) is owned by all of
+// them; it is fine when all of them may do what it does.
+func (c *Ctx) ownedBy(s *Stmt, allowed ...string) bool {
+	if in(c.Owner(s), allowed...) {
+		return true
+	}
+	f := s.Fn
+	if s.Via != nil {
+		f = s.Via.Parent()
+	}
+	owners := c.effectiveOwners(f, 0)
+	if len(owners) == 0 {
+		return false
+	}
+	for _, o := range owners {
+		if !in(c.Key(o), allowed...) {
+			return false
+		}
+	}
+	return true
+}
+
 // namedAnchors: unexported functions and methods the properties name as mechanisms; they keep their own identity
 // (statements they build are "theirs"), every other unexported function or method is transparent: it belongs to the
 // operation(s) that call it.
@@ -344,8 +367,23 @@ func (c *Ctx) predsString(ps []*Pred) string {
 func (c *Ctx) findStmts(ownerKey, table, kind string) []*Stmt {
 	var out []*Stmt
 	for _, s := range c.EntShape().Stmts {
-		if c.Owner(s) == ownerKey && s.Table == table && s.Kind == kind {
+		if s.Table != table || s.Kind != kind {
+			continue
+		}
+		if c.Owner(s) == ownerKey {
 			out = append(out, s)
+			continue
+		}
+		// an instance of a shared private helper's statement, completed for a call made by this operation
+		if o := c.Owner(s); !namedAnchors[o] {
+			if of := c.Fn(o); of != nil && of.Object() != nil && !of.Object().Exported() {
+				for _, f := range s.Frames {
+					if c.Key(c.effectiveTop(top(f.Parent()), 0)) == ownerKey {
+						out = append(out, s)
+						break
+					}
+				}
+			}
 		}
 	}
 	return out
